@@ -791,6 +791,15 @@ def _judge_scenario(rep, drv, scn, stride=1, offset=0, counters=None, perturb=No
                               "%s: the failure of step %d (%s on %s %r, %s) was swallowed: the call returned although the move is incomplete"
                               % (key, k, hit[1], hit[2], hit[3], kind), found_input=True, signature="C07/swallowed")
                 continue
+            # the property demands that the failure is *reported*: a swallowed failure of a step on a
+            # file object (read / write / close) is a violation even when this backend happens to hold
+            # the complete data (on a real filesystem a failed close means the data may not be there).
+            # The one documented exception is the rename attempt, whose failure falls back to a copy.
+            if r.exc is None and hit[1] in ("read", "write", "close", "readinto", "flush"):
+                rep.violation(dict(case, obs=r.obs.tup()),
+                              "%s: the failure of step %d (%s on %s %r, %s) was not reported: the call returned normally"
+                              % (key, k, hit[1], hit[2], hit[3], kind), found_input=True, signature="C07/not-reported")
+                continue
             if r.exc is not None and exc_class(r.exc).startswith("other:"):
                 rep.count("foreign-exception:" + exc_class(r.exc))
             # (c) the outcome is one the model produces for this phase
